@@ -325,6 +325,7 @@ class Run:
             if hit is not None:
                 if hit['id'] not in seen_known:
                     seen_known.add(hit['id'])
+                    self.known_hits.append(dict(id=hit['id'], what=hit['what']))
                     lines.append(f"KNOWN-FINDING: property={self.prop} {hit['what']}")
             else:
                 unknown.append(v)
